@@ -217,14 +217,40 @@ class HarnessA:
 
     # ------------------------------------------------------------------------------------------
     # grant bookkeeping
-    def _hook(self, t):
+    def _reserving(self, t):
+        """While a reserve_* call runs, hook the very first event the store creates (the token) at creation time,
+        so that a grant of the new token inside the call is seen in its true order relative to other grants."""
+        import simpy
+        env = self.env
+        state = {"n": 0}
+
+        def factory(_t=t, _state=state):
+            ev = simpy.Event(env)
+            if _state["n"] == 0:
+                _t.ev = ev
+                self._hook(_t, creating=True)
+            _state["n"] += 1
+            return ev
+        env.event = factory
+
+    def _reserved(self, t, ev):
+        del self.env.event
+        if t.ev is not ev:
+            # unexpected: the token is not the first event created; fall back to after-the-fact registration
+            t.ev = ev
+            if ev.triggered and t.state == "pending":
+                self._granted(t, True)
+            elif not ev.triggered:
+                self._hook(t)
+
+    def _hook(self, t, creating=False):
         ev = t.ev
         orig = ev.succeed
 
-        def hooked(value=None, _t=t, _orig=orig):
+        def hooked(value=None, _t=t, _orig=orig, _imm=creating):
             r = _orig(value)
             if _t.state in ("pending", "cancelling"):
-                self._granted(_t, False)
+                self._granted(_t, _imm and self._in_reserve is _t)
             return r
         ev.succeed = hooked
 
@@ -341,16 +367,18 @@ class HarnessA:
             return self._prs_put(t)
         self.toks[name] = t
         t.state = "pending"
+        self._in_reserve = t
+        self._reserving(t)
         try:
             ev = self.ad.rp(prio)
         except Exception as e:
             t.state = "cancelled"
+            self._in_reserve = None
+            del self.env.event
             self.violate("C01", "reserve_put-raised:" + type(e).__name__, f"reserve_put raised {e!r}", stop=True)
-        t.ev = ev
-        if ev.triggered:
-            self._granted(t, True)
-        else:
-            self._hook(t)
+        self._in_reserve = None
+        self._reserved(t, ev)
+        if t.state != "granted":
             self.probe("put_request_waits")
         return "granted" if t.state == "granted" else "pending"
 
@@ -374,16 +402,18 @@ class HarnessA:
         self.toks[name] = t
         t.state = "pending"
         # a grant inside the call must see the current availability
+        self._in_reserve = t
+        self._reserving(t)
         try:
             ev = self.ad.rg(prio, t.pred)
         except Exception as e:
             t.state = "cancelled"
+            self._in_reserve = None
+            del self.env.event
             self.violate("C02", "reserve_get-raised:" + type(e).__name__, f"reserve_get raised {e!r}", stop=True)
-        t.ev = ev
-        if ev.triggered:
-            self._granted(t, True)
-        else:
-            self._hook(t)
+        self._in_reserve = None
+        self._reserved(t, ev)
+        if t.state != "granted":
             self.probe("get_request_waits")
         return "granted" if t.state == "granted" else "pending"
 
@@ -738,6 +768,7 @@ class HarnessA:
         self.obs.append(self.snapshot(res))
 
     _exc = None
+    _in_reserve = None
 
     def _x(self, f, *a):
         """Inside the client process: run an executor, never let anything escape into the kernel."""
